@@ -17,14 +17,14 @@ from pbt.instruments.locks import LockShim, SelfDeadlock
 TECHNIQUE = "exhaustive short histories + Hypothesis-generated histories with raising digesters under a deadlock-detecting lock shim and virtual clock, judged by an item-level accounting model; 2-thread schedules under the deterministic scheduler"
 LEVEL_TEXT = ("Exploration: every ingest/digest/autophagy call of every history must return (a self-deadlock becomes a deterministic exception), the queue bound and an "
               "item-level accounting model (each item queued, digested-and-counted, reported as error, emergency-dropped or expired; no item digested twice; toxic "
-              "callback exactly once; nothing sensitive recycled) are checked after every call. All op sequences to depth 3 (quick) / 4 (thorough) over a 12-op alphabet on 4 "
+              "callback exactly once; nothing sensitive recycled) are checked after every call. All op sequences to depth 3 (quick) / 4 (thorough) over a 13-op alphabet on 4 "
               "configurations are enumerated; longer histories and 2-thread interleavings at line granularity are sampled.")
 LEVEL_NOTE = "Removal paths other than autophagy are observed through harness-supplied digesters / the toxic callback; errors count as reported when returned in a DigestResult or visible as an error/failure counter of get_statistics()."
 PROPERTY = "C13"
 BUDGET = {"quick": 10000, "thorough": 250000}
 RULE = ("Generated: configurations (max_queue_size 2..8, auto_digest_threshold 1..8, retention 1 h) x up to 30 ops over ingest of each waste type (optionally with a raising "
         "digester), ingest_error, ingest_sensitive, digest(k), autophagy, clock advance (17/39/41/61 min: never exactly on the retention boundary), AutophagyDaemon.check_and_prune "
-        "feeding the same lysosome. Enumerated: all sequences to depth 3 (quick) / 4 (thorough) over 12 ops x 4 configurations. 1/8 of the generated cases are 2-thread schedules. "
+        "feeding the same lysosome. Enumerated: all sequences to depth 3 (quick) / 4 (thorough) over 13 ops x 4 configurations. 1/8 of the generated cases are 2-thread schedules. "
         "Non-trivial: the history reaches the auto-digest threshold or capacity, or contains a raising digester.")
 ASSUMPTIONS = [
     "digestion errors count as reported when they are returned in a DigestResult to the caller of digest() or increase an error/failure counter in get_statistics()",
@@ -34,19 +34,23 @@ ASSUMPTIONS = [
 MIN_NONTRIVIAL_FRACTION = 0.3
 RULE += " Added after the seeded rounds: " + 'Raising digesters raise one of 16 exception types.'
 RULE += ' Clock gaps up to two days.'
-EXHAUSTIVE_NOTE = {"quick": "all op sequences of length 1..3 over 12 ops x 4 configurations (4*(12+144+1728) = 7536), complete",
-                   "thorough": "all op sequences of length 1..4 over 12 ops x 4 configurations (90480), complete"}
+RULE += ' Bookkeeping calls between operations (get_statistics, clear_recycling_bin, get_recycled).'
+RULE += ' Equal-valued items: an ingest variant adds an item equal in every field to earlier ones (Waste compares by value); the accounting attributes a processed copy to the oldest copy still unaccounted for.'
+EXHAUSTIVE_NOTE = {"quick": "all op sequences of length 1..3 over 13 ops x 4 configurations (4*(13+169+2197) = 9516), complete",
+                   "thorough": "all op sequences of length 1..4 over 13 ops x 4 configurations (4*(13+169+2197+28561) = 123760), complete"}
 
 _cfg = st.fixed_dictionaries({"max_q": st.integers(2, 8), "auto": st.integers(1, 8)})
 _op = st.one_of(
     st.tuples(st.just("ingest"), st.integers(0, 3), st.sampled_from([False, False, True])),
     st.tuples(st.just("ingest"), st.integers(0, 3), st.just(False)),
+    st.tuples(st.just("ingest"), st.integers(0, 1), st.just(False), st.just("dup")),
     st.tuples(st.just("err")),
     st.tuples(st.just("sens"), st.sampled_from([False, False, True])),
     st.tuples(st.just("digest"), st.sampled_from([None, None, 1, 2, 3])),
     st.tuples(st.just("autophagy")),
     st.tuples(st.just("adv"), st.sampled_from([17, 39, 41, 61, 61, 24 * 60 + 5, 24 * 60 + 41, 48 * 60 + 10])),
     st.tuples(st.just("daemon")),
+    st.tuples(st.just("maint"), st.sampled_from(["get_statistics", "clear_recycling_bin", "get_recycled"])),
 ).map(list)
 
 
@@ -68,7 +72,7 @@ def strategy(tier):
 
 _ENUM_CFG = [{"max_q": 8, "auto": 2}, {"max_q": 2, "auto": 8}, {"max_q": 4, "auto": 3}, {"max_q": 3, "auto": 1}]
 _ENUM_OPS = [["ingest", 0, False], ["ingest", 1, True], ["ingest", 2, False], ["ingest", 3, True], ["err"], ["sens", False], ["sens", True],
-             ["digest", None], ["digest", 1], ["autophagy"], ["adv", 61], ["daemon"]]
+             ["digest", None], ["digest", 1], ["autophagy"], ["adv", 61], ["daemon"], ["ingest", 0, False, "dup"]]
 
 
 def enumerate_cases(tier):
@@ -117,6 +121,7 @@ class _World:
         self.next_id = 0
         self.ingested = {}      # id -> created (virtual seconds), toxic?
         self.gone = set()
+        self.dups = {}          # duplicate key -> ids of the equal-valued items ingested under it, oldest first
 
         def digester(waste):
             iid = self._id_of(waste)
@@ -145,6 +150,16 @@ class _World:
     def _id_of(self, waste):
         c = waste.content
         if isinstance(c, dict):
+            if "dup" in c:
+                # equal-valued items: which copy is being processed is unobservable, so it is attributed to the oldest copy still unaccounted for
+                # (a copy processed although none is left shows up as a second visit of the last one)
+                ids = self.dups.get(c["dup"], [])
+                for k in ids:
+                    if k not in self.gone:
+                        return k
+                if ids:
+                    return ids[-1]
+                raise HarnessError("waste with an unknown duplicate key: %r" % (c,))
             if "id" in c:
                 return c["id"]
             if "context" in c and isinstance(c["context"], dict) and "id" in c["context"]:
@@ -216,7 +231,13 @@ def _judge(case, out, clock, lys_mod, real_waste):
         result = None
         removed = None
         try:
-            if name == "ingest":
+            if name == "ingest" and len(op) > 3 and op[3] == "dup":
+                # an item equal in every field to the others ingested under this key at this clock position (Waste is a value-comparing dataclass)
+                iid = w.new_id(raises=False)
+                w.dups.setdefault(op[1], []).append(iid)
+                out.label("ingest:equal-valued-item")
+                lys.ingest(real_waste(waste_type=w.types[op[1]], content={"dup": op[1]}, source="t", created_at=clock.now()))
+            elif name == "ingest":
                 iid = w.new_id(raises=op[2])
                 lys.ingest(real_waste(waste_type=w.types[op[1]], content={"id": iid}, source="t", created_at=clock.now()))
             elif name == "err":
@@ -229,6 +250,8 @@ def _judge(case, out, clock, lys_mod, real_waste):
                 result = lys.digest(op[1])
             elif name == "autophagy":
                 removed = lys.autophagy()
+            elif name == "maint":
+                getattr(lys, op[1])()           # bookkeeping between calls: the accounting below must not depend on it
             elif name == "daemon":
                 if daemon is None:
                     from operon_ai.healing.autophagy_daemon import AutophagyDaemon
